@@ -271,14 +271,88 @@ def run(ctx):
         "every single call of the ~45-op alphabet (management single/batch/filtered/update, RBAC wrappers, clear, build, load, save), pairs over a sample "
         "(thorough: all pairs) and seeded random histories of length 3-9, executed on Enforcer, on AsyncEnforcer (every call awaited) and on the Lean model; "
         "after every call results, policies, adapter writes, notifications, ~40 decisions/role queries and ~35 public API queries (get_all_*, implicit roles/"
-        "permissions/users, domain variants, batch_enforce, enforce_ex) are compared; non-trivial/distinct = (configuration, history)"
+        "permissions/users, domain variants, batch_enforce, enforce_ex) are compared; Enforcer+FileAdapter vs AsyncEnforcer+AsyncFileAdapter on "
+        "histories ending in save_policy + load_policy (incl. histories that empty the policy): results, policies and file bytes; non-trivial/distinct = (configuration, history)"
     )
     res.extra["programs"] = len(res.nontrivial)
     res.extra["disagreements_checked"] = res.n_spec + res.n_corr
     return res
 
 
+# ------------------------------------------------------------------ bundled file adapters (FileAdapter vs AsyncFileAdapter)
+
+
+def _file_history(args):
+    """one history on Enforcer+FileAdapter or AsyncEnforcer+AsyncFileAdapter; after every call: result, policy, file text"""
+    import shutil
+    import tempfile
+
+    shape, init, hist, is_async = args
+    casbin = common.use_repo()
+    from casbin.persist.adapters import FileAdapter
+    from casbin.persist.adapters.asyncio import AsyncFileAdapter
+
+    d = tempfile.mkdtemp(prefix="c18f_")
+    try:
+        path = os.path.join(d, "policy.csv")
+        with open(path, "w") as f:
+            for sec in ("p", "g"):
+                for r in init.get(sec, []):
+                    f.write(", ".join([sec] + list(r)) + "\n")
+        if is_async:
+            e = casbin.AsyncEnforcer(casbin.AsyncEnforcer.new_model(text=ec.TEXT[shape]), AsyncFileAdapter(path))
+            ec.run_async(e.load_policy())
+        else:
+            e = casbin.Enforcer(casbin.Enforcer.new_model(text=ec.TEXT[shape]), FileAdapter(path))
+        e.enable_auto_save(False)  # the file adapters implement load/save only
+        out = []
+        for op in hist:
+            try:
+                ret = ec.res_str(ec.impl_call(e, op, is_async))
+            except Exception as ex:  # noqa
+                ret = ec.exc_str(ex)
+            out.append({"ret": ret, "p": [list(r) for r in e.get_policy()], "g": [list(r) for r in e.get_grouping_policy()], "file": open(path).read()})
+        return out
+    finally:
+        shutil.rmtree(d, ignore_errors=True)
+
+
+def run_file_adapters(ctx, res, deep):
+    rng = ctx["rng"]
+    jobs = []
+    for shape in ("rbac", "dom"):
+        P, G, G2, R = ec.universe(shape)
+        ops = [o for o in ec.op_alphabet(shape) if o[0] not in ("load", "save", "setstore")]
+        empties = [("clear",), ("removeread", "p"), ("removeread", "g"), ("removefiltered", "p", 0, [""]), ("removefiltered", "g", 0, [""])]
+        for init in ({"p": P, "g": G}, {"p": P[:1], "g": []}, {"p": [], "g": []}):
+            for a in ops:
+                jobs.append((shape, init, [a, ("save",), ("load", None)]))
+            # histories that empty the whole policy before saving
+            jobs.append((shape, init, [("removeread", "p"), ("removeread", "g"), ("save",), ("load", None)]))
+            jobs.append((shape, init, [("clear",), ("save",), ("load", None), ("add", "p", P[0]), ("save",), ("load", None)]))
+            for _ in range(40 if not deep else 400):
+                h = [rng.choice(ops + empties) for _ in range(rng.randint(1, 5))] + [("save",), ("load", None)]
+                if rng.random() < 0.5:
+                    h += [rng.choice(ops + empties), ("save",), ("load", None)]
+                jobs.append((shape, init, h))
+    with ec.mp.Pool(12) as pool:
+        so = pool.map(_file_history, [(s, i, h, False) for s, i, h in jobs], chunksize=8)
+        ao = pool.map(_file_history, [(s, i, h, True) for s, i, h in jobs], chunksize=8)
+    for (shape, init, hist), rs, ra in zip(jobs, so, ao):
+        res.nontrivial.add(hash(("file", shape, repr(init), repr(hist))))
+        for i, (x, y) in enumerate(zip(rs, ra)):
+            res.evaluations += 1
+            res.count("file-adapter-step")
+            if x != y:
+                k = [k for k in ("ret", "p", "g", "file") if x[k] != y[k]][0]
+                res.violation({"signature": f"C18:file:{k}:{hist[i][0]}", "stream": "file",
+                               "what": f"{shape} model, bundled file adapters: after {[list(o) for o in hist[: i + 1]][-4:]} Enforcer+FileAdapter and AsyncEnforcer+AsyncFileAdapter differ in {k}: sync {str(x[k])[:160]!r} vs async {str(y[k])[:160]!r}",
+                               "case": {"shape": shape, "initial": init, "history": [list(o) for o in hist[: i + 1]]}, "expected": x, "observed": y, "model_text": ec.TEXT[shape]})
+                break
+
+
 def _run_stage(ctx, res, deep):
+    run_file_adapters(ctx, res, deep)
     jobs = gen(ctx, deep)
     store = {}
 
@@ -321,6 +395,10 @@ def _run_stage(ctx, res, deep):
 
 
 def replay(obj):
+    if obj.get("stream") == "file":
+        c = obj["case"]
+        hist = [tuple(o) for o in c["history"]]
+        return _file_history((c["shape"], c["initial"], hist, False))[-1] != _file_history((c["shape"], c["initial"], hist, True))[-1]
     c = obj["case"]["config"]
     hist = [tuple(o) for o in obj["case"]["history"]]
     outs = []
